@@ -178,14 +178,18 @@ static STRESS_BARRIER: std::sync::Mutex<Option<Arc<Barrier>>> = std::sync::Mutex
 /// for every op the distinct outputs seen (a pure function gives exactly one)
 fn stress<const D: usize>(c: &Value) -> Value {
     let barrier = STRESS_BARRIER.lock().unwrap().clone();
-    let (g, sig) = graph_of(c);
-    let s = g.build_sampler::<D>(sig);
+    // every thread must reach the barrier, also one whose build panics
+    let built = std::panic::catch_unwind(std::panic::AssertUnwindSafe(|| {
+        let (g, sig) = graph_of(c);
+        g.build_sampler::<D>(sig)
+    }));
     if let Some(b) = barrier {
         b.wait();
     }
-    let s = match s {
-        Ok(s) => s,
-        Err(e) => return json!({ "build_err": e }),
+    let s = match built {
+        Ok(Ok(s)) => s,
+        Ok(Err(e)) => return json!({ "build_err": e }),
+        Err(_) => return json!({ "panic": "build_sampler" }),
     };
     let ops: Vec<Value> = c["ops"].as_array().unwrap().iter().take(c["stress_ops"].as_u64().unwrap_or(16) as usize).cloned().collect();
     let rounds = c["stress_rounds"].as_u64().unwrap_or(100);
